@@ -221,6 +221,8 @@ pub struct UnorderedChan {
 }
 
 pub struct UnorderedOracle {
+    /// false: bookkeeping and coverage counters only, never reports
+    pub decide: bool,
     pub prop: &'static str,
     pub chans: BTreeMap<Key, UnorderedChan>,
     pub check_liveness: bool,
@@ -231,6 +233,7 @@ pub struct UnorderedOracle {
 impl UnorderedOracle {
     pub fn new(prop: &'static str, check_liveness: bool, check_promptness: bool) -> Self {
         UnorderedOracle {
+            decide: true,
             prop,
             chans: BTreeMap::new(),
             check_liveness,
@@ -460,6 +463,9 @@ impl Monitor for UnorderedOracle {
                     }
                     other => {
                         c.bad = true;
+                        if !self.decide {
+                            return;
+                        }
                         let class = if other.is_some() { "duplicate" } else { "fabricated-or-corrupted" };
                         let r = sim.replay_value(
                             &ctx.prop,
@@ -478,7 +484,7 @@ impl Monitor for UnorderedOracle {
                 }
             }
             Ev::DrainEnd { conn, dir, ch } => {
-                if !self.check_promptness || kind_of(sim, *dir, *ch) != Some(Kind::ReliableUnordered) {
+                if !self.decide || !self.check_promptness || kind_of(sim, *dir, *ch) != Some(Kind::ReliableUnordered) {
                     return;
                 }
                 if sim.receiver(*conn, *dir).map_or(true, |e| e.is_disconnected()) {
@@ -507,7 +513,7 @@ impl Monitor for UnorderedOracle {
                 }
             }
             Ev::Deadline { .. } => {
-                if !self.check_liveness {
+                if !self.check_liveness || !self.decide {
                     return;
                 }
                 for ((conn, dir, ch), c) in self.chans.iter() {
